@@ -299,12 +299,27 @@ void KSI_TreeBuilder_free(KSI_TreeBuilder *builder) {
 	}
 }
 
+/**
+ * Frees a node created by #KSI_TreeNode_join without freeing the two subtrees it joined.
+ */
+static void freeJoinNode(KSI_TreeNode *node) {
+	if (node != NULL) {
+		if (node->leftChild != NULL) node->leftChild->parent = NULL;
+		if (node->rightChild != NULL) node->rightChild->parent = NULL;
+		node->leftChild = NULL;
+		node->rightChild = NULL;
+		KSI_TreeNode_free(node);
+	}
+}
+
 static int insertNode(KSI_TreeBuilder *builder, KSI_TreeNode *node, int at) {
 	int res = KSI_UNKNOWN_ERROR;
-	KSI_TreeNode *pSlot = NULL;
+	KSI_TreeNode *cur = NULL;
 	KSI_TreeNode *root = NULL;
+	int top = at;
+	int i;
 
-	if (builder == NULL || node == NULL) {
+	if (builder == NULL || node == NULL || at < 0) {
 		res = KSI_INVALID_ARGUMENT;
 		goto cleanup;
 	}
@@ -314,37 +329,42 @@ static int insertNode(KSI_TreeBuilder *builder, KSI_TreeNode *node, int at) {
 		goto cleanup;
 	}
 
-	/* Get the current value from the stack. */
-	pSlot = builder->stack[at];
-
-	if (pSlot == NULL) {
-		/* The slot is empty - reuse the slot. */
-		builder->stack[at] = node;
-	} else {
-		/* The slot is taken - create a new node from the existing ones. */
-		res = KSI_TreeNode_join(builder->ctx, builder->hsr, pSlot, node, &root);
+	/* Join the node with the occupied slots without touching the stack, so that a failure
+	 * leaves the builder (and the node) exactly as they were. */
+	cur = node;
+	while (top < KSI_TREE_BUILDER_STACK_LEN && builder->stack[top] != NULL) {
+		res = KSI_TreeNode_join(builder->ctx, builder->hsr, builder->stack[top], cur, &root);
 		if (res != KSI_OK) {
 			KSI_pushError(builder->ctx, res, NULL);
 			goto cleanup;
 		}
-
-		/* Remove the existing element. */
-		builder->stack[at] = NULL;
-
-		res = insertNode(builder, root, at + 1);
-		if (res != KSI_OK) {
-			KSI_pushError(builder->ctx, res, NULL);
-			goto cleanup;
-		}
-
+		cur = root;
 		root = NULL;
+		top++;
 	}
+
+	if (top >= KSI_TREE_BUILDER_STACK_LEN) {
+		KSI_pushError(builder->ctx, res = KSI_BUFFER_OVERFLOW, "Tree too large.");
+		goto cleanup;
+	}
+
+	/* Nothing can fail any more - update the stack. */
+	for (i = at; i < top; i++) {
+		builder->stack[i] = NULL;
+	}
+	builder->stack[top] = cur;
+	cur = NULL;
 
 	res = KSI_OK;
 
 cleanup:
 
-	KSI_TreeNode_free(root);
+	/* Undo the joins made so far: the subtrees stay with their owners. */
+	while (cur != NULL && cur != node) {
+		KSI_TreeNode *next = cur->rightChild;
+		freeJoinNode(cur);
+		cur = next;
+	}
 
 	return res;
 }
@@ -382,17 +402,28 @@ static int processAndInsertNode(KSI_TreeBuilder *builder, KSI_TreeNode *node) {
 		if (tmp != NULL) {
 			res = KSI_TreeNode_join(builder->ctx, builder->hsr, tmp, localRoot == NULL ? node : localRoot, &localRoot);
 			if (res != KSI_OK) goto cleanup;
+			/* The generated node belongs to the local tree now. */
+			tmp = NULL;
 		}
 	}
 
 	res = insertNode(builder, localRoot == NULL ? node : localRoot, 0);
 	if (res != KSI_OK) goto cleanup;
 
-	tmp = NULL;
+	localRoot = NULL;
 
 cleanup:
 
 	KSI_TreeNode_free(tmp);
+
+	/* Take the local tree apart again: the generated nodes are freed, the input node stays with the caller. */
+	while (localRoot != NULL && localRoot != node) {
+		KSI_TreeNode *next = localRoot->rightChild;
+		KSI_TreeNode *generated = localRoot->leftChild;
+		freeJoinNode(localRoot);
+		KSI_TreeNode_free(generated);
+		localRoot = next;
+	}
 
 	return res;
 }
@@ -502,13 +533,7 @@ static int addLeaf(KSI_TreeBuilder *builder, KSI_DataHash *hsh, KSI_MetaData *me
 		goto cleanup;
 	}
 
-	/* Insert the leaf. */
-	res = processAndInsertNode(builder, node);
-	if (res != KSI_OK) {
-		KSI_pushError(builder->ctx, res, NULL);
-		goto cleanup;
-	}
-
+	/* Create the handle first: once the leaf is part of the tree nothing may fail. */
 	if (leaf != NULL) {
 		tmp = KSI_new(KSI_TreeLeafHandle);
 		if (tmp == NULL) {
@@ -519,7 +544,16 @@ static int addLeaf(KSI_TreeBuilder *builder, KSI_DataHash *hsh, KSI_MetaData *me
 		tmp->pBuilder = builder;
 		tmp->leafNode = node;
 		tmp->ref = 1;
+	}
 
+	/* Insert the leaf. */
+	res = processAndInsertNode(builder, node);
+	if (res != KSI_OK) {
+		KSI_pushError(builder->ctx, res, NULL);
+		goto cleanup;
+	}
+
+	if (leaf != NULL) {
 		*leaf = tmp;
 		tmp = NULL;
 	}
@@ -547,6 +581,7 @@ int KSI_TreeBuilder_addMetaData(KSI_TreeBuilder *builder, KSI_MetaData *metaData
 int KSI_TreeBuilder_close(KSI_TreeBuilder *builder) {
 	int res = KSI_UNKNOWN_ERROR;
 	KSI_TreeNode *root = NULL;
+	KSI_TreeNode *first = NULL;
 	KSI_TreeNode *tmp = NULL;
 
 	if  (builder == NULL) {
@@ -559,22 +594,35 @@ int KSI_TreeBuilder_close(KSI_TreeBuilder *builder) {
 	if (builder->rootNode == NULL) {
 		size_t i;
 
-		/* Finalize the forest of complete binary trees into a single tree. */
+		/* Finalize the forest of complete binary trees into a single tree. The stack is left
+		 * untouched until all joins have succeeded. */
 		for (i = 0; i < KSI_TREE_BUILDER_STACK_LEN; i++) {
 			KSI_TreeNode *node = builder->stack[i];
-			builder->stack[i] = NULL;
 
 			if (node == NULL) continue;
 
 			if (root == NULL) {
 				root = node;
+				first = node;
 			} else {
 				res = KSI_TreeNode_join(builder->ctx, builder->hsr, node, root, &tmp);
-				if (res != KSI_OK) goto cleanup;
+				if (res != KSI_OK) {
+					/* Undo the joins made so far. */
+					while (root != NULL && root != first) {
+						KSI_TreeNode *next = root->rightChild;
+						freeJoinNode(root);
+						root = next;
+					}
+					goto cleanup;
+				}
 
 				root = tmp;
 				tmp = NULL;
 			}
+		}
+
+		if (root != NULL) {
+			memset(builder->stack, 0, sizeof(builder->stack));
 		}
 	} else {
 		KSI_pushError(builder->ctx, res = KSI_INVALID_STATE, "The tree has already been closed.");
